@@ -9,7 +9,8 @@
 #define VERIF_FAULT_H
 #ifdef FAULT_WRAP
 #include <sanitizer/lsan_interface.h>
-static int fault_armed; static long fault_count, fault_hit; static long fault_at[16]; static int fault_n;
+#include <sanitizer/common_interface_defs.h>
+static int fault_trace; static int fault_armed; static long fault_count, fault_hit; static long fault_at[16]; static int fault_n;
 /* live blocks allocated by the SDK (open addressing set of pointers): a cheap filter for the leak detector */
 void __real_free(void *);
 #define LIVE_CAP (1u << 18)
@@ -20,7 +21,7 @@ static unsigned live_slot(void *p) { return (unsigned)(((size_t)p >> 4) * 265443
 static void live_add(void *p) { unsigned i; if (p == NULL) return; for (i = live_slot(p); live_set[i] != NULL && live_set[i] != (void *)1; i = (i + 1) & (LIVE_CAP - 1)); live_set[i] = LIVE_MASK(p); live_epoch_of[i] = live_epoch; live_n++; }
 static void live_del(void *p) { unsigned i; if (p == NULL) return; for (i = live_slot(p); live_set[i] != NULL; i = (i + 1) & (LIVE_CAP - 1)) if (live_set[i] == LIVE_MASK(p)) { live_set[i] = (void *)1; live_n--; return; } }
 void __wrap_free(void *p) { live_del(p); __real_free(p); }
-static int fault_now(void) { int k; if (!fault_armed) return 0; fault_count++; for (k = 0; k < fault_n; k++) if (fault_at[k] == fault_count) { fault_hit++; return 1; } return 0; }
+static int fault_now(void) { int k; if (!fault_armed) return 0; fault_count++; for (k = 0; k < fault_n; k++) if (fault_at[k] == fault_count) { fault_hit++; if (fault_trace) { fprintf(stderr, "FAULT-AT allocation %ld\n", fault_count); __sanitizer_print_stack_trace(); } return 1; } return 0; }
 void *__wrap_malloc(size_t n) { void *p; if (fault_now()) return NULL; p = __real_malloc(n); live_add(p); return p; }
 void *__wrap_calloc(size_t a, size_t b) { void *p; if (fault_now()) return NULL; p = __real_calloc(a, b); live_add(p); return p; }
 void *__wrap_realloc(void *o, size_t n) { void *p; if (fault_now()) return NULL; p = __real_realloc(o, n); if (p != NULL) { live_del(o); live_add(p); } return p; }
@@ -33,6 +34,7 @@ static int fault_cmd(char **tok, int n) {
 		{ char *p = n > 1 ? tok[1] : (char *)"0"; fault_n = 0; while (*p && fault_n < 16) { fault_at[fault_n++] = strtol(p, &p, 10); if (*p == ',') p++; } }
 		fault_count = 0; fault_hit = 0; fault_armed = 1; printf("R fault armed live=%ld\n", live_n); return 1;
 	}
+	if (!strcmp(tok[0], "FAULTTRACE")) { fault_trace = atoi(tok[1]); printf("R faulttrace %d\n", fault_trace); return 1; }
 	if (!strcmp(tok[0], "LIVE")) { printf("R live n=%ld\n", live_n); return 1; }
 	if (!strcmp(tok[0], "LEAKCHECK")) {
 		/* LeakSanitizer reports every leak again on each pass: after a pass, everything allocated since the previous pass is marked `ignore`, so the next
